@@ -15,7 +15,7 @@ for d in sorted(os.listdir(root)):
     m = json.load(open(mp))
     patch = open(os.path.join(root, d, "patch.diff")).read()
     files = sorted(set(re.findall(r"^\+\+\+ b/(\S+)", patch, re.M)))
-    needs = m.get("needs", "")
+    needs = m.get("needs") or json.load(open(os.path.join(root, "needs.json"))).get(d, "")
     hist = m.get("history", [])
     first = hist[0] if hist else {"caught_by": m.get("caught_by")}
     fc = ", ".join(first.get("caught_by") or []) or "missed"
